@@ -140,6 +140,9 @@ impl BiStream {
     }
 
     pub async fn finish(&mut self) -> Result<()> {
+        // Frames handed to the sink may still be buffered by the codec: write them out before
+        // the underlying QUIC stream is finished, or they are silently lost.
+        SinkExt::<Frame>::flush(&mut self.write).await?;
         self.write.finish().await.map_err(QuicError::WriteError)?;
         Ok(())
     }
